@@ -93,6 +93,10 @@ def run(ctx):
         r = ctx.tlc('DecodeOutcome', 'do.cfg', cfg_text='SPECIFICATION Spec\nCONSTANTS NF = %d\nINVARIANT ExitOK\nINVARIANT PartialOnlyForSingle\nINVARIANT NoTreeOnlyAfterAll\nCHECK_DEADLOCK FALSE\n' % nf,
                     name='mc_outcome_nf%d' % nf)
         ctx.tlc_expect_ok(r, 'DecodeOutcome MC')
+    # the loop the protocol abstracts from, as built: which format of a group wins, which errors are collected, what a single-format group
+    # returns, and the precedence of in-arguments - every scenario of 1..3 synthetic formats on the real decode.Decode (Probe.tla)
+    import probearm
+    probearm.run(ctx)
     known = corpusarm.registered_formats(ctx)
     files = corpusarm.sample_files(2 << 20 if th else 256 << 10)
     byfam = collections.defaultdict(list)
